@@ -264,7 +264,7 @@ func TestC33(t *testing.T) {
 			return uint64(1 + rng.IntN(2000))
 		}
 	}
-	n := r.N(30000, 1000000)
+	n := r.N(30000, 3000000)
 	for i := 0; i < n && r.Violations() < 40; i++ {
 		var c c33Case
 		mode := rng.IntN(4)
